@@ -326,7 +326,18 @@ pub struct UdpSock {
 
 #[derive(Debug, Default)]
 pub struct PollObj {
-    pub regs: Vec<(Source, usize)>,
+    pub regs: Vec<Reg>,
+}
+
+/// One registration: edge-triggered by default; `level`: ready whenever something is queued;
+/// `oneshot`: disarmed after it has fired until it is registered again.
+#[derive(Clone, Copy, Debug)]
+pub struct Reg {
+    pub src: Source,
+    pub token: usize,
+    pub level: bool,
+    pub oneshot: bool,
+    pub armed: bool,
 }
 
 #[derive(Clone, Copy, Debug, PartialEq, Eq, Hash)]
@@ -334,6 +345,9 @@ pub enum Source {
     Udp(SockId),
     Timer(TimerId),
     Listener(ListenId),
+    /// something that can be registered but never becomes ready (e.g. an accepted connection
+    /// whose peer never sends)
+    Never,
 }
 
 #[derive(Debug)]
@@ -343,6 +357,8 @@ pub struct TimerObj {
     pub edge_at: Ns,
     pub arms: u64,
     pub fires: u64,
+    /// timeouts armed up to this generation have been cancelled
+    pub cancelled_upto: u64,
 }
 
 #[derive(Debug)]
@@ -1031,6 +1047,20 @@ impl World {
     }
 
     pub fn poll_register(&mut self, poll: PollId, src: Source, token: usize) {
+        self.poll_register_opts(poll, src, token, false, false)
+    }
+
+    pub fn poll_deregister(&mut self, poll: PollId, src: Source) {
+        self.polls[poll].regs.retain(|r| r.src != src);
+    }
+
+    /// `reregister`: replaces the registration of `src` (re-arms a oneshot one)
+    pub fn poll_reregister(&mut self, poll: PollId, src: Source, token: usize, level: bool, oneshot: bool) {
+        self.poll_deregister(poll, src);
+        self.poll_register_opts(poll, src, token, level, oneshot);
+    }
+
+    pub fn poll_register_opts(&mut self, poll: PollId, src: Source, token: usize, level: bool, oneshot: bool) {
         // data already queued at registration time raises an edge (measured on epoll)
         match src {
             Source::Udp(s) => {
@@ -1043,16 +1073,19 @@ impl World {
                     self.listeners[l].edge = true;
                 }
             }
-            Source::Timer(_) => {}
+            Source::Timer(_) | Source::Never => {}
         }
-        self.polls[poll].regs.push((src, token));
+        self.polls[poll].regs.push(Reg { src, token, level, oneshot, armed: true });
     }
 
-    fn source_fires(&self, src: Source) -> Option<Ns> {
-        match src {
+    fn source_fires(&self, r: &Reg) -> Option<Ns> {
+        if !r.armed {
+            return None;
+        }
+        match r.src {
             Source::Udp(s) => {
                 let k = &self.socks[s];
-                (k.edge && !k.queue.is_empty() && !k.closed).then_some(k.edge_at)
+                ((k.edge || r.level) && !k.queue.is_empty() && !k.closed).then_some(k.edge_at)
             }
             Source::Timer(t) => {
                 let k = &self.timers[t];
@@ -1060,37 +1093,44 @@ impl World {
             }
             Source::Listener(l) => {
                 let k = &self.listeners[l];
-                (k.edge && !k.queue.is_empty() && !k.closed).then_some(k.edge_at)
+                ((k.edge || r.level) && !k.queue.is_empty() && !k.closed).then_some(k.edge_at)
             }
+            Source::Never => None,
         }
     }
 
     fn poll_ready(&self, poll: PollId) -> bool {
-        self.polls[poll].regs.iter().any(|(s, _)| self.source_fires(*s).is_some())
+        self.polls[poll].regs.iter().any(|r| self.source_fires(r).is_some())
     }
 
     /// Collect (and clear) the edges that fire now, in order of readiness.
     pub fn poll_collect(&mut self, poll: PollId, max: usize) -> Vec<usize> {
         let mut ready: Vec<(Ns, usize, Source, usize)> = Vec::new();
-        for (i, (s, tok)) in self.polls[poll].regs.iter().enumerate() {
-            if let Some(at) = self.source_fires(*s) {
-                ready.push((at, i, *s, *tok));
+        for (i, r) in self.polls[poll].regs.iter().enumerate() {
+            if let Some(at) = self.source_fires(r) {
+                ready.push((at, i, r.src, r.token));
             }
         }
         ready.sort_by_key(|r| (r.0, r.1));
         ready.truncate(max);
+        for (_, i, _, _) in &ready {
+            if self.polls[poll].regs[*i].oneshot {
+                self.polls[poll].regs[*i].armed = false;
+            }
+        }
         for (_, _, s, _) in &ready {
             match *s {
                 Source::Udp(s) => self.socks[s].edge = false,
                 Source::Timer(t) => self.timers[t].edge = false,
                 Source::Listener(l) => self.listeners[l].edge = false,
+                Source::Never => {}
             }
         }
         ready.into_iter().map(|r| r.3).collect()
     }
 
     pub fn timer_new(&mut self) -> TimerId {
-        self.timers.push(TimerObj { created: self.now, edge: false, edge_at: 0, arms: 0, fires: 0 });
+        self.timers.push(TimerObj { created: self.now, edge: false, edge_at: 0, arms: 0, fires: 0, cancelled_upto: 0 });
         let id = self.timers.len() - 1;
         self.record(Ev::TimerNew { timer: id });
         id
@@ -1116,6 +1156,11 @@ impl World {
         self.record(Ev::TimerArm { timer, delay_ns: delay.as_nanos() as u64, fire_at });
         self.ev_seq += 1;
         self.events.insert((fire_at, self.ev_seq), Event::TimerFire(timer, gen));
+    }
+
+    /// Cancels what is armed: pending fire events of earlier generations are ignored.
+    pub fn timer_cancel(&mut self, timer: TimerId) {
+        self.timers[timer].cancelled_upto = self.timers[timer].arms as u64;
     }
 
     // ---------------- TCP (health check) ----------------
@@ -1486,6 +1531,10 @@ pub fn entropy(consumer: &'static str, buf: &mut [u8]) {
     with(|w| w.entropy(consumer, buf))
 }
 
+pub fn task_done(t: TaskId) -> bool {
+    try_with(|w| w.tasks.get(t).map(|k| k.state == TState::Done).unwrap_or(true)).unwrap_or(true)
+}
+
 pub fn current_task_name() -> Option<String> {
     try_with(|w| w.current.map(|t| w.tasks[t].name.clone())).flatten()
 }
@@ -1625,6 +1674,33 @@ pub fn mutex_lock(m: MutexId) -> bool {
         }
         block_on(Wait::Mutex(m), None);
     }
+}
+
+/// `try_lock`: Some(poisoned) when the lock was free, None when it is held.
+pub fn mutex_try_lock(m: MutexId) -> Option<bool> {
+    yield_point(Op::Small);
+    with(|w| {
+        if w.mutexes[m].locked_by.is_none() {
+            w.mutexes[m].locked_by = Some(w.current.unwrap_or(usize::MAX));
+            let p = w.mutexes[m].poisoned;
+            w.record(Ev::MutexLock { mutex: m, poisoned: p });
+            Some(p)
+        } else {
+            None
+        }
+    })
+}
+
+pub fn mutex_is_poisoned(m: MutexId) -> bool {
+    try_with(|w| m < w.mutexes.len() && w.mutexes[m].poisoned).unwrap_or(false)
+}
+
+pub fn mutex_clear_poison(m: MutexId) {
+    try_with(|w| {
+        if m < w.mutexes.len() {
+            w.mutexes[m].poisoned = false;
+        }
+    });
 }
 
 pub fn mutex_unlock(m: MutexId, poison: bool) {
@@ -1767,7 +1843,9 @@ pub fn run() -> Outcome {
             match ev {
                 Event::Deliver(d) => with(|w| w.deliver(d)),
                 Event::TimerFire(t, gen) => with(|w| {
-                    let _ = gen;
+                    if (gen as u64) <= w.timers[t].cancelled_upto {
+                        return;
+                    }
                     let now = w.now;
                     let k = &mut w.timers[t];
                     k.edge = true;
